@@ -65,6 +65,16 @@ func inLog(b *BaseStore, e ipfslog.Entry) bool {
 	return false
 }
 
+// inView: the entry is served by the store's materialised view.
+func inView(b *BaseStore, e ipfslog.Entry) bool {
+	for _, x := range b.Index().Get("").([]ipfslog.Entry) {
+		if x.GetHash().Equals(e.GetHash()) {
+			return true
+		}
+	}
+	return false
+}
+
 // VerifC10Mixed: a replica with an explicit write list receives announcements
 // mixing valid heads with rejected ones — a non-writer's entry, an entry of
 // another database, an entry whose claimed address is wrong, and a writer's
@@ -164,6 +174,7 @@ func VerifC10Mixed() {
 	vstub.WaitIdle()
 	vstub.Cover("re-announced")
 	vstub.Assert(inLog(a, v1), "C10 a valid entry announced again after a mixed announcement becomes visible")
+	vstub.Assert(inView(a, v1), "C10 a valid entry announced again after a mixed announcement is in the VIEW (not only in the log)")
 
 	// the replica is still able to replicate: a newer valid head (child of v1)
 	_, v2 := appendAs(env, lw, a.id, w2, []byte("v2"))
@@ -175,6 +186,7 @@ func VerifC10Mixed() {
 	}
 	vstub.WaitIdle()
 	vstub.Assert(inLog(a, v2), "C10 a later valid head still replicates")
+	vstub.Assert(inView(a, v2) && inView(a, v1), "C10 the view shows every valid entry once it replicated")
 	vstub.Assert(inLog(a, v1), "C10 its ancestry is in the log")
 	// rejected entries never enter
 	if !claims && bad.GetIdentity().ID == vstub.IDOf("mallory") {
